@@ -161,3 +161,11 @@ Example ex_oracle :
   ok_C02 true [(HDInt 1 10, mkObs false true 5 (-1) true)] false true = 2%Z /\
   ok_C02 true [(HDChoice 3, mkObs false false 0 1 false)] false true = 5%Z.
 Proof. repeat split; reflexivity. Qed.
+
+(* the pre-fix behaviour of Real.inverse_transform (no clip, F02 - repaired in /repo, fixes/F02): kept as the regression
+   witness; proved in C09 *)
+Theorem C02_real_noclip_refuted :
+  exists R d x, DH.C09_Transforms.LemmasRobust.admissible R /\ wf_dim d = true /\ in_dim d x = true /\
+    (forall lg pw, in_dim d (inv_cell_noclip R lg pw d (tr_cell R lg d x)) = false).
+Proof. exact DH.C09_Transforms.LemmasMember.real_member_refuted. Qed.
+Print Assumptions C02_real_noclip_refuted.
